@@ -10,6 +10,8 @@
 #include <time.h>
 #include <unistd.h>
 #include <sys/time.h>
+#include <sys/epoll.h>
+#include <sys/eventfd.h>
 #ifdef __cplusplus
 extern "C" {
 #endif
@@ -36,6 +38,13 @@ int vf_sched_yield(void);
 int vf_usleep(unsigned);
 int vf_clock_gettime(clockid_t, struct timespec*);
 long vf_sysconf(int);
+int vf_eventfd(unsigned int, int);
+int vf_epoll_create1(int);
+int vf_epoll_ctl(int, int, int, struct epoll_event*);
+int vf_epoll_wait(int, struct epoll_event*, int, int);
+ssize_t vf_read(int, void*, size_t);
+ssize_t vf_write(int, const void*, size_t);
+int vf_close(int);
 #ifdef __cplusplus
 }
 #endif
@@ -62,4 +71,11 @@ long vf_sysconf(int);
 #define usleep vf_usleep
 #define clock_gettime vf_clock_gettime
 #define sysconf vf_sysconf
+#define eventfd vf_eventfd
+#define epoll_create1 vf_epoll_create1
+#define epoll_ctl vf_epoll_ctl
+#define epoll_wait vf_epoll_wait
+#define read vf_read
+#define write vf_write
+#define close vf_close
 #endif
